@@ -155,6 +155,8 @@ BLOCKS = {
     "LPF_arr": (lambda p: D.LPF(p.ua, BW(), 2, None, True), False, False),
     "PD": (lambda p: D.PD(p.x1, BW(), 0.8, 300.0, 50.0, "all"), True, True),
     "PD_2pol": (lambda p: D.PD(p.x2, BW(), 1.0, 300.0, 50.0, "thermal-shot", 1e-8, 3.0), True, True),
+    "PD_ase_shot": (lambda p: D.PD(p.x1, BW(), 0.7, 300.0, 50.0, "ASE-shot", 1e-8), True, True),
+    "PD_ase_thermal": (lambda p: D.PD(p.x1, BW(), 0.7, 300.0, 50.0, "ase-thermal"), True, True),
     "ADC": (lambda p: D.ADC(p.e, None, 4, "n"), False, False),
     "ADC_v": (lambda p: D.ADC(p.ua, None, 3), False, False),
     "GET_EYE": (lambda p: D.GET_EYE(p.e, 64), True, False),
@@ -414,7 +416,7 @@ def s_fresh(draw):
         b["R"] = draw(s_R)
     elif how == "custom":
         b["custom"] = {"alpha": draw(st.floats(-1, 1, allow_nan=False))}
-    blk = draw(st.one_of(st.sampled_from(BLOCK_NAMES), st.sampled_from(["FBG_fixed", "FIBER_nl", "DM", "FIBER_lin", "LPF", "BPF", "EDFA", "PD", "LASER", "DAC_gauss", "typing", "utils.spectral", "GET_EYE"])))
+    blk = draw(st.one_of(st.sampled_from(BLOCK_NAMES), st.sampled_from(["FBG_fixed", "FIBER_nl", "DM", "FIBER_lin", "LPF", "BPF", "EDFA", "PD", "PD_ase_shot", "PD_ase_thermal", "PD_2pol", "LASER", "DAC_gauss", "typing", "utils.spectral", "GET_EYE"])))
     if how == "wavelength-near":
         # a band wide enough to hold a fixed 193.4 THz grating under every one of these carriers; blocks whose result depends on gv.f0
         a["R"], a["sps"], b["R"], b["sps"] = 25e9, 16, 25e9, 16
@@ -439,7 +441,9 @@ def fresh_digest(steps):
     last = max(i for i, s_ in enumerate(steps) if s_["op"] == "call")
     only = [s_ for s_ in steps[:last] if s_["op"] != "call"] + [steps[last]]
     here = _os.path.dirname(_os.path.dirname(_os.path.dirname(_os.path.abspath(__file__))))
-    p = _sp.run([_sys.executable, "-m", "vf.props.c14"], input=_json.dumps(only), cwd=here, env=dict(_os.environ), capture_output=True, text=True, timeout=900)
+    # (the fresh interpreter also runs under ANOTHER string-hash seed than this process: results must not depend on set/dict iteration order)
+    env = dict(_os.environ, PYTHONHASHSEED=str(1 + int(digest(only)[:6], 16) % 4000))
+    p = _sp.run([_sys.executable, "-m", "vf.props.c14"], input=_json.dumps(only), cwd=here, env=env, capture_output=True, text=True, timeout=900)
     if p.returncode != 0 or not p.stdout.strip():
         raise RuntimeError("fresh interpreter failed: " + p.stderr[-400:])
     return _json.loads(p.stdout.strip().splitlines()[-1])
